@@ -29,7 +29,12 @@ MANIFEST = {
                  "correspondence with the real code",
 }
 
-REQUIRED = ["KV.C04.unk_padding"]
+REQUIRED = ["KV.C04.header_roundtrip", "KV.C04.magic_distinct", "KV.C04.recognize_type", "KV.C04.size_eq_setup",
+            "KV.C04.model_size_eq_setup", "KV.C04.hashed_regions", "KV.C04.trie_regions", "KV.C04.regions_disjoint",
+            "KV.C04.unk_padding", "KV.C04.load_layout_eq_write_layout", "KV.C04.stored_params_read",
+            "KV.C04.bhiksha_array_roundtrip", "KV.C04.bhiksha_dont_roundtrip", "KV.C04.chop_bits_bounds",
+            "KV.C04.array_table_in_block", "KV.C04.quant_exact", "KV.C04.QuantExample.quant_lossy_when_count_exceeds_bins",
+            "KV.C04.sanity_model_eq_probe", "KV.C04.total_header_table", "KV.C04.fixed_layout"]
 
 TYPE_NAMES = ["probing", "rest-probing", "trie", "quant-trie", "array-trie", "quant-array-trie"]
 
@@ -42,7 +47,7 @@ MULTS = [fbits(1.5), fbits(1.5), fbits(1.1), fbits(2.0), fbits(1.0000002), fbits
 
 
 def probe_flags():
-    ok, bdir, lg = repo.build("asan")
+    ok, bdir, lg = repo.build("asan", targets=["kenlm", "kenlm_util"])
     if not ok:
         return None, lg
     return [os.path.join(bdir, "lib", "libkenlm.a"), os.path.join(bdir, "lib", "libkenlm_util.a"), "-lz", "-lbz2", "-llzma",
@@ -379,17 +384,19 @@ def run(ctx):
         quick = ctx.tier == "quick"
         n_models = 14 if quick else 160
         models = []
-        # fixed coverage first: every (unk, pruned) combination, then random
-        for wu in (True, False):
-            for pr in (False, True):
-                models.append(C04_gen.gen_model(rng, with_unk=wu, pruned=pr, size=rng.choice(["small", "medium"])))
-        models.append(C04_gen.gen_model(rng, with_unk=False, pruned=True, size="large", order=rng.choice([3, 4, 5])))
-        models.append(C04_gen.gen_model(rng, with_unk=True, pruned=False, size="large", order=3))
+        # fixed coverage first: every order, with/without <unk>, closed/pruned, then random
+        for order, wu, pr, size in ((2, True, False, "small"), (3, False, True, "medium"), (4, True, True, "small"),
+                                    (5, False, False, "small"), (6, False, True, "small"), (6, True, False, "tiny"),
+                                    (rng.choice([3, 4, 5]), False, True, "large"), (3, True, False, "large")):
+            models.append(C04_gen.gen_model(rng, order=order, with_unk=wu, pruned=pr, size=size))
         while len(models) < n_models:
             models.append(C04_gen.gen_model(rng))
         models.sort(key=lambda m: len(m["text"]))
         sample_file = None
         for mi, model in enumerate(models):
+            if len(ctx.violations) >= 6:
+                log('  stopping the binary stream after %d violations' % len(ctx.violations))
+                break
             queries = C04_gen.gen_queries(rng, model)
             ctx.hist("model.order", model["order"])
             ctx.hist("model.unk", model["saw_unk"])
@@ -432,6 +439,8 @@ def run(ctx):
                         shutil.copy(src, sample_file)
         # component streams
         ops = component_ops(rng, 300 if quick else 6000)
+        # replay of the Lean witness quant_lossy_when_count_exceeds_bins on the real quantiser: -0.25 x3, -0.75, one bit
+        ops.insert(0, "quant 1 0 4 %d %d %d %d %d" % (fbits(-0.25), fbits(-0.25), fbits(-0.25), fbits(-0.75), fbits(-0.75)))
         (rc1, o1, e1) = pair.harness(ops)
         (rc2, o2, e2) = pair.driver(ops)
         if rc1 != 0:
@@ -448,6 +457,11 @@ def run(ctx):
                               {"stream": "component", "op": op, "impl": a, "model": b}, no_input=True)
                 problems.append("component correspondence broken: " + kind)
                 break
+            if i == 0 and kind == "quant" and a is not None:
+                ctx.notes["quant_witness_replay"] = a
+                if not a.endswith("enc=0:%d" % fbits(-0.5)):
+                    ctx.violation("the real quantiser does not reproduce the Lean witness (value -0.75 decoded as -0.5 with 4 values in 2 bins)",
+                                  {"stream": "component", "op": op, "impl": a}, no_input=True)
             if kind == "bhiksha" and a and " err" not in a:
                 # property oracle: every pointer pair is read back
                 vs = op.split()[4:]
